@@ -177,7 +177,9 @@ func (fs *FS) rename(oldname, newname string) error {
 	}
 
 	// checks are made in the order the os package reports them
-	if newInfo, err := hackpadfs.Stat(newMount, newSubPath); err == nil && newInfo.IsDir() {
+	newInfo, newErr := hackpadfs.Stat(newMount, newSubPath)
+	newExisted := newErr == nil
+	if newExisted && newInfo.IsDir() {
 		// like os.Rename, never replace a directory
 		if _, err := hackpadfs.Stat(oldMount, oldSubPath); err != nil {
 			return err
@@ -214,15 +216,20 @@ func (fs *FS) rename(oldname, newname string) error {
 	if err != nil {
 		return err
 	}
-	newFileWriter, ok := newFile.(io.Writer)
-	if !ok {
-		return hackpadfs.ErrPermission
+	err = hackpadfs.ErrPermission
+	if newFileWriter, ok := newFile.(io.Writer); ok {
+		_, err = io.Copy(newFileWriter, oldFile)
 	}
-	defer func() { _ = newFile.Close() }()
-	_, err = io.Copy(newFileWriter, oldFile)
-	if err != nil {
+	closeErr := newFile.Close()
+	if err == nil {
+		err = closeErr // the copy is only complete once it's closed without error
+	}
+	if err == nil {
+		err = hackpadfs.Remove(oldMount, oldSubPath)
+	}
+	if err != nil && !newExisted {
+		// failed, so the file must stay where it was only. take the (partial) copy away again
 		_ = hackpadfs.Remove(newMount, newSubPath)
-		return err
 	}
-	return hackpadfs.Remove(oldMount, oldSubPath)
+	return err
 }
